@@ -39,11 +39,13 @@ def scenario_ops(name, nd, nblk=8):
             pend.append(('write', d, 'f', det_bytes('%s/f' % d, size)))
         return [], pend
     if name == 'adds':
-        # adds only over a synced array: every disk has a synced file `a` (nblk/2 blocks); the pending set adds files
-        pre = [[('write', d, 'a', det_bytes('%s/a' % d, (nblk // 2) * BS - (7 if i == 0 else 0))) for i, d in enumerate(disks)]]
+        # adds only over a synced array: d1 holds a synced file `a` of nblk blocks, the other disks a synced `a` of nblk/2
+        # blocks; the pending set adds files on the other disks, i.e. in stripes SHARED with the second half of d1/a (so a
+        # half-written stripe matters for a previously synced file), and one file beyond the old end of the array
+        pre = [[('write', d, 'a', det_bytes('%s/a' % d, (nblk if i == 0 else nblk // 2) * BS - (7 if i == 0 else 0))) for i, d in enumerate(disks)]]
         pend = []
         for i, d in enumerate(disks):
-            if i != 1 or nd == 1:
+            if i >= 1:
                 pend.append(('write', d, 'n', det_bytes('%s/n' % d, (nblk // 2) * BS - 13 * i)))
         pend.append(('write', disks[0], 'sub/m', det_bytes('%s/m' % disks[0], BS + 5)))
         return pre, pend
